@@ -362,7 +362,7 @@ func checkC05(c *Ctx) {
 			if !ok || !instrDominates(under, in) {
 				return
 			}
-			for i, r := range ret.Results {
+			for i, r := range returnedValues(ret) {
 				ex, ok := r.(*ssa.Extract)
 				if !ok || ex.Tuple != ssa.Value(under) || ex.Index != i {
 					okRet = false
